@@ -356,6 +356,9 @@ func mergeConfigs(ctx context.Context, src Config, dest *Config) {
 func (c *RootConfig) Initialize(ctx context.Context) error {
 	log := zerolog.Ctx(ctx)
 	recursivePackages := []string{}
+	if err := c.Config.validateRegexes(); err != nil {
+		return err
+	}
 	for pkgName, pkgConfig := range c.Packages {
 		if pkgConfig == nil {
 			pkgConfig = NewPackageConfig()
@@ -371,6 +374,9 @@ func (c *RootConfig) Initialize(ctx context.Context) error {
 		pkgCtx := pkgLog.WithContext(ctx)
 
 		mergeConfigs(pkgCtx, c.Config, pkgConfig.Config)
+		if err := pkgConfig.Config.validateRegexes(); err != nil {
+			return fmt.Errorf("package %s: %w", pkgName, err)
+		}
 		if err := pkgConfig.Initialize(pkgCtx); err != nil {
 			return fmt.Errorf("initializing root config: %w", err)
 		}
@@ -477,6 +483,9 @@ func (c *PackageConfig) Initialize(ctx context.Context) error {
 			ifaceConfig.Config = &Config{}
 		}
 		mergeConfigs(ctx, *c.Config, ifaceConfig.Config)
+		if err := ifaceConfig.Config.validateRegexes(); err != nil {
+			return fmt.Errorf("interface %s: %w", idx, err)
+		}
 		if err := ifaceConfig.Initialize(ctx); err != nil {
 			return fmt.Errorf("initializing package config: %w", err)
 		}
@@ -573,6 +582,9 @@ func (c *InterfaceConfig) Initialize(ctx context.Context) error {
 				c.Configs[idx] = subCfg
 			}
 			mergeConfigs(ctx, *c.Config, subCfg)
+			if err := subCfg.validateRegexes(); err != nil {
+				return err
+			}
 		}
 	}
 
@@ -614,6 +626,35 @@ type Config struct {
 
 func (c *Config) FilePath() *pathlib.Path {
 	return pathlib.NewPath(*c.Dir).Join(*c.FileName).Clean()
+}
+
+// validateRegexes reports the first regular expression of this config that does
+// not compile. The expressions are otherwise only compiled when they are
+// consulted (a sub-package to exclude, an interface that is neither listed nor
+// selected by `all`), so that a typo could go unnoticed for a long time.
+func (c *Config) validateRegexes() error {
+	check := func(parameter string, expr string) error {
+		if _, err := regexp.Compile(expr); err != nil {
+			return fmt.Errorf("invalid `%s`: %w", parameter, err)
+		}
+		return nil
+	}
+	if c.IncludeInterfaceRegex != nil {
+		if err := check("include-interface-regex", *c.IncludeInterfaceRegex); err != nil {
+			return err
+		}
+	}
+	if c.ExcludeInterfaceRegex != nil {
+		if err := check("exclude-interface-regex", *c.ExcludeInterfaceRegex); err != nil {
+			return err
+		}
+	}
+	for _, expr := range c.ExcludeSubpkgRegex {
+		if err := check("exclude-subpkg-regex", expr); err != nil {
+			return err
+		}
+	}
+	return nil
 }
 
 func (c *Config) ShouldExcludeSubpkg(pkgPath string) (bool, error) {
